@@ -181,7 +181,9 @@ def _canon_scalar(x):
 
 
 def _fmt_float(x: float) -> str:
-    if x == 0:
+    if abs(x) < 1e-9:
+        # cancellation noise of order-dependent float sums (row order inside
+        # disk-shuffled partitions is legitimately schedule dependent)
         return "0"
     if math.isinf(x):
         return "inf" if x > 0 else "-inf"
